@@ -18,7 +18,11 @@ H = Harness("C03", ["OQ.Base.Ring", "OQ.Base.CaseEq", "OQ.Pauli.Algebra", "OQ.Pa
             "exact tests; kinds: add sub mul (all 8 operand-kind combinations, either side), div (exact reciprocal, zero, "
             "non-number divisor), pow (exponent 0-6, negative), simplify, eq (permuted / perturbed / unsimplified), pairs "
             "(exhaustive ordered pairs of Pauli strings on 2 qubits, 3 in the thorough tier), invalid (TypeError / "
-            "ValueError stream, oracle only); non-trivial = two or more acted qubits or a sum of two or more terms")
+            "ValueError stream, oracle only), history (the SAME operand objects used in 2-5 successive operations: a+a twice, "
+            "(a+a)-a, c+3 twice, simplify twice on a hand-built sum sharing its term objects, a*b then a+b ...; every "
+            "result compared with the model on the ORIGINAL values, operands and earlier results re-read afterwards); "
+            "numeric type of the coefficients is a generator dimension recorded after '/' in the kind: I all Python int, NP all "
+            "numpy int64/int32, I+NP, FC no integer, MIX; non-trivial = two or more acted qubits or a sum of two or more terms")
 
 LET = "XYZ"
 P2 = {"I": np.eye(2, dtype=complex), "X": np.array([[0, 1], [1, 0]], dtype=complex),
@@ -31,10 +35,35 @@ def pyval(c):
     if ty == "int":
         assert im == 0 and e == 0
         return int(re)
+    if ty in ("npint64", "npint32"):
+        assert im == 0 and e == 0
+        return (np.int64 if ty == "npint64" else np.int32)(re)
     if ty == "float":
         assert im == 0
         return re / 2 ** e
     return complex(re / 2 ** e, im / 2 ** e)
+
+INT_TYPES = ("int", "npint64", "npint32")
+
+def coef_types(o):
+    if o["k"] == "S":
+        return [ty for t in o["terms"] for ty in coef_types(t)]
+    return [num_c(o["c"])[3] if o["k"] == "N" else o["c"][3]]
+
+def tymix(*os):
+    """numeric-type profile of the coefficients of a case (label only)"""
+    tys = set(ty for o in os for ty in coef_types(o))
+    if not tys:
+        return "FC"
+    if tys <= {"int"}:
+        return "I"
+    if tys <= {"npint64", "npint32"}:
+        return "NP"
+    if tys <= set(INT_TYPES):
+        return "I+NP"
+    if not (tys & set(INT_TYPES)):
+        return "FC"
+    return "MIX"
 
 def frac(c):
     re, im, e, _ = c
@@ -45,7 +74,10 @@ def to_py(o):
         return PauliTerm({int(q): a for q, a in o["ops"]}, pyval(o["c"]))
     if o["k"] == "S":
         return PauliSum([to_py(t) for t in o["terms"]])
-    return pyval(o["c"])
+    return pyval(num_c(o["c"]))
+
+def num_c(c):
+    return [c[0], c[1], c[2], "int"] if c[3] in ("npint64", "npint32") else c
 
 def from_number(z):
     """Python int/float/complex -> [re_num, im_num, e] with value (re + i im)/2^e exactly."""
@@ -59,6 +91,8 @@ def from_py(x):
     """canonical form of what the implementation returned"""
     if isinstance(x, PauliTerm):
         ty = "complex" if isinstance(x.coefficient, complex) else "float" if isinstance(x.coefficient, float) else "int"
+        if isinstance(x.coefficient, np.generic):
+            ty = "np-" + type(x.coefficient).__name__
         return dict(k="T", c=from_number(x.coefficient) + [ty], ops=sorted([int(q), a] for q, a in x._ops.items()))
     if isinstance(x, PauliSum):
         return dict(k="S", terms=[from_py(t) for t in x.terms])
@@ -127,8 +161,19 @@ def nontrivial(*os):
 
 # ----------------------------------------------------------------------------- generators
 
-def g_coef(rng, small=False, zero_p=0.08, ty=None):
-    ty = ty or rng.choice(["int", "float", "complex", "complex"])
+PROF = None      # numeric-type profile of the case being generated: None | "int" | "npint" | "intmix"
+
+def g_coef(rng, small=False, zero_p=0.08, ty=None, number=False):
+    """number=True: a plain-number operand (numpy integers are not accepted there by the library)"""
+    if ty is None:
+        if PROF == "int" or (PROF == "npint" and number):
+            ty = "int"
+        elif PROF == "npint":
+            ty = rng.choice(["npint64", "npint32"])
+        elif PROF == "intmix":     # integers next to floats and complex numbers with zero imaginary part
+            ty = rng.choice(["int", "int", "float", "complex0"] + ([] if number else ["npint64", "npint32"]))
+        else:
+            ty = rng.choice(["int", "float", "complex", "complex"])
     num, emax = (4, 1) if small else (32, 4)
     def nz():
         while True:
@@ -136,12 +181,14 @@ def g_coef(rng, small=False, zero_p=0.08, ty=None):
             if k:
                 return k
     if rng.random() < zero_p:
-        return [0, 0, 0, ty]
-    if ty == "int":
+        return [0, 0, 0, "complex" if ty == "complex0" else ty]
+    if ty in INT_TYPES:
         return [nz(), 0, 0, ty]
     e = rng.randint(0, emax)
     if ty == "float":
         return [nz(), 0, e, ty]
+    if ty == "complex0":
+        return [nz(), 0, rng.choice([0, e]), "complex"]
     r = rng.random()
     if r < 0.25:
         return [0, nz(), e, ty]
@@ -179,7 +226,7 @@ def g_sum(rng, pool, small=False, maxn=6):
     return dict(k="S", terms=terms)
 
 def g_num(rng, small=False):
-    return dict(k="N", c=g_coef(rng, small, zero_p=0.1))
+    return dict(k="N", c=g_coef(rng, small, zero_p=0.1, number=True))
 
 def g_pool(rng, maxq=7):
     return sorted(rng.sample(range(13), rng.randint(1, maxq)))
@@ -290,6 +337,67 @@ def g_eq(rng):
         b["terms"][rng.randrange(len(b["terms"]))] = dict(rng.choice(b["terms"]))     # same length, same set, other multiset
     return a, b
 
+
+# ----------------------------------------------------------------------------- histories: the same objects used repeatedly
+
+def like_term(rng, t, cancel_p=0.1):
+    """a term with the same operator set (dict built in another order) and, mostly, a non-cancelling coefficient"""
+    if rng.random() < cancel_p:
+        c = [-t["c"][0], -t["c"][1], t["c"][2], t["c"][3]]
+    else:
+        c = g_coef(rng, small=True, zero_p=0.05)
+    return dict(k="T", c=c, ops=rng.sample(t["ops"], len(t["ops"])))
+
+def g_history(rng):
+    """objs: operand specs (a sum may be given as refs to earlier term objects, which it then shares);
+    steps: [op, x, y] with x, y = "o<i>" (object i) or "r<k>" (result of step k)."""
+    pool = g_pool(rng, 4)
+    a = g_term(rng, pool, small=True, zero_p=0.03)
+    w = rng.randrange(10)
+    if w == 0:
+        return "aa-twice", [a], [["add", "o0", "o0"], ["add", "o0", "o0"], ["mul", "r0", "o0"]]
+    if w == 1:
+        return "aa-minus-a", [a], [["add", "o0", "o0"], ["sub", "r0", "o0"], ["mul", "r0", "o0"]]
+    if w == 2:
+        c = dict(k="T", c=g_coef(rng, small=True, zero_p=0.03), ops=[])
+        return "const-plus-number", [c, g_num(rng, small=True)], [["add", "o0", "o1"], ["add", "o0", "o1"], ["add", "o1", "o0"], ["sub", "o1", "o0"]]
+    if w == 3:
+        b, x = like_term(rng, a), g_term(rng, pool, small=True)
+        objs = [a, x, b, dict(k="S", refs=rng.sample([0, 1, 2], 3))]
+        return "simplify-twice", objs, [["simplify", "o3", None], ["simplify", "o3", None], ["add", "o0", "o2"]]
+    if w == 4:
+        b = like_term(rng, a) if rng.random() < 0.7 else g_term(rng, pool, small=True)
+        return "mul-then-add", [a, b], [["mul", "o0", "o1"], ["add", "o0", "o1"], ["add", "o1", "o0"], ["sub", "o0", "o1"], ["mul", "o1", "o0"]]
+    if w == 5:
+        b = like_term(rng, a)
+        return "ab-twice", [a, b], [["add", "o0", "o1"], ["add", "o0", "o1"], ["mul", "r0", "o0"], ["sub", "r1", "o1"]]
+    if w == 6:
+        n = g_num(rng, small=True)
+        c = dict(a, ops=[]) if rng.random() < 0.5 else a
+        return "number-either-side", [c, n], [["add", "o1", "o0"], ["sub", "o1", "o0"], ["add", "o0", "o1"], ["sub", "o0", "o1"], ["mul", "o1", "o0"]]
+    if w == 7:                       # hand-built sum of full specs (own term objects), simplified repeatedly and used afterwards
+        s = g_sum(rng, pool, small=True, maxn=4)
+        if s["terms"]:
+            s["terms"].append(like_term(rng, rng.choice(s["terms"])))
+        return "sum-reused", [s, a], [["simplify", "o0", None], ["add", "o0", "o1"], ["simplify", "o0", None], ["mul", "o0", "o1"], ["sub", "o1", "o0"]]
+    if w == 8:
+        return "pow-then-add", [a], [["pow", "o0", rng.randint(2, 4)], ["add", "o0", "o0"], ["pow", "o0", 2], ["sub", "o0", "o0"]]
+    # random history over two terms, a sum sharing them, a number and earlier results
+    b = like_term(rng, a) if rng.random() < 0.6 else g_term(rng, pool, small=True)
+    objs = [a, b, dict(k="S", refs=[0, 1] + ([0] if rng.random() < 0.3 else [])), g_num(rng, small=True)]
+    steps = []
+    for k in range(rng.randint(2, 5)):
+        refs = ["o0", "o0", "o1", "o1", "o2", "o3"] + [f"r{j}" for j in range(k)]
+        op = rng.choice(["add", "add", "sub", "sub", "mul", "simplify"])
+        if op == "simplify":
+            steps.append(["simplify", "o2", None])
+            continue
+        x, y = rng.choice(refs), rng.choice(refs)
+        if x == "o3" and y == "o3":
+            y = "o0"
+        steps.append([op, x, y])
+    return "random", objs, steps
+
 def g_pairs(n):
     letters = "IXYZ"
     strings = list(itertools.product(letters, repeat=n))
@@ -299,11 +407,29 @@ def g_pairs(n):
             ops2 = [[q, a] for q, a in enumerate(s2) if a != "I"]
             yield dict(kind="pairs", a=dict(k="T", c=[3, 0, 1, "float"], ops=ops1), b=dict(k="T", c=[1, -2, 0, "complex"], ops=ops2[::-1]))
 
+def g_pairs_int(n):
+    """the same exhaustive pairs with integer coefficients only (Python int x numpy int32)"""
+    strings = list(itertools.product("IXYZ", repeat=n))
+    for s1 in strings:
+        for s2 in strings:
+            ops1 = [[q, a] for q, a in enumerate(s1) if a != "I"]
+            ops2 = [[q, a] for q, a in enumerate(s2) if a != "I"]
+            yield dict(kind="pairs", a=dict(k="T", c=[3, 0, 0, "int"], ops=ops1[::-1]), b=dict(k="T", c=[-2, 0, 0, "npint32"], ops=ops2))
+
 def gen(rng, tier):
     quick = tier != "thorough"
+    global PROF
+    PROF = None
     yield from g_pairs(2 if quick else 3)
-    n = 520 if quick else 9000
+    yield from g_pairs_int(2)
+    n = 640 if quick else 10000
     for _ in range(n):
+        PROF = rng.choice([None, None, None, None, None, "int", "int", "npint", "intmix", "intmix"])
+        r = rng.random()
+        if r < 0.12:
+            tpl, objs, steps = g_history(rng)
+            yield dict(kind="history", tpl=tpl, objs=objs, steps=steps)
+            continue
         r = rng.random()
         if r < 0.42:
             op = rng.choice(["add", "sub", "mul", "mul"])
@@ -338,14 +464,15 @@ def gen(rng, tier):
         else:
             pool = g_pool(rng, 3)
             yield dict(kind="invalid", a=g_operand(rng, pool, rng.choice("TS")),
-                       what=rng.choice(["add-str", "mul-none", "sub-list", "pow-float", "pow-neg", "rpow", "rdiv", "eq-str", "div-term"]))
+                       what=rng.choice(["add-str", "mul-none", "sub-list", "pow-float", "pow-neg", "rpow", "rdiv", "eq-str", "div-term",
+                                        "add-npint", "mul-npint"]))
 
 # ----------------------------------------------------------------------------- one case
 
 BIN = {"add": (0, lambda x, y: x + y), "sub": (1, lambda x, y: x - y), "mul": (2, lambda x, y: x * y),
        "div": (3, lambda x, y: x / y), "pairs": (2, lambda x, y: x * y)}
 
-def run_case(inp):
+def run_single(inp):
     kind = inp["kind"]
     a = inp["a"]
     if kind in BIN:
@@ -428,13 +555,103 @@ def run_case(inp):
                "sub-list": (lambda: x - [1], "TypeError"), "pow-float": (lambda: x ** 2.0, "ValueError"),
                "pow-neg": (lambda: x ** -1, "ValueError"), "rpow": (lambda: 2 ** x, "TypeError"),
                "rdiv": (lambda: 2 / x, "TypeError"), "eq-str": (lambda: x == "X0", "TypeError"),
-               "div-term": (lambda: x / PauliTerm("X0"), "TypeError")}
+               "div-term": (lambda: x / PauliTerm("X0"), "TypeError"),
+               "add-npint": (lambda: x + np.int64(3), "TypeError"), "mul-npint": (lambda: x * np.int32(3), "TypeError")}
         fn, want = fns[what]
         st, out = outcome(fn, timeout=60)
         ok = st == "err" and out == want
         return dict(chk=None, oracle_ok=ok, oracle_msg="" if ok else f"{what} on {x!r}: expected {want}, got {st} {out!r}",
                     kind="invalid-" + what, nontrivial=nontrivial(a))
     raise ValueError(kind)
+
+
+# ----------------------------------------------------------------------------- histories
+
+def same_value(x, y):
+    """canonical forms denote the same operand literally (types of the coefficients aside)"""
+    if x["k"] != y["k"]:
+        return False
+    if x["k"] == "S":
+        return len(x["terms"]) == len(y["terms"]) and all(same_value(u, v) for u, v in zip(x["terms"], y["terms"]))
+    return frac(x["c"]) == frac(y["c"]) and (x["k"] == "N" or sorted(map(tuple, x["ops"])) == sorted(map(tuple, y["ops"])))
+
+def expand(objs):
+    """specs with sums given by refs replaced by the full value"""
+    vals = []
+    for o in objs:
+        vals.append(dict(k="S", terms=[vals[i] for i in o["refs"]]) if o["k"] == "S" and "refs" in o else o)
+    return vals
+
+def run_history(inp):
+    objs, steps = inp["objs"], inp["steps"]
+    vals = expand(objs)                                  # the ORIGINAL values
+    py = []
+    for o in objs:                                       # one Python object per spec, shared wherever it is referenced
+        py.append(PauliSum([py[i] for i in o["refs"]]) if o["k"] == "S" and "refs" in o else to_py(o))
+    res_py, res_val = [], []                             # results and their value when they were returned
+    chks, msgs = [], []
+    pool_q = set().union(*[qubits_of(v) for v in vals]) if vals else set()
+    ref = lambda r: ((py, vals) if r[0] == "o" else (res_py, res_val), int(r[1:]))
+    def get(r):
+        (objects, values), i = ref(r)
+        return objects[i], values[i]
+    for k, (op, x, y) in enumerate(steps):
+        px, vx = get(x)
+        text = f"step {k}: {op} {x}" + (f" {y}" if y is not None else "")
+        if op == "simplify":
+            st, out = outcome(lambda: px.simplify(), timeout=60)
+            chk = f"simplify_eqb {coq_operand(vx)} {coq_result(st, out)}"
+            want = lambda pool: matrix(vx, pool)
+        elif op == "pow":
+            st, out = outcome(lambda: px ** y, timeout=60)
+            chk = f"pow_eqb {coq_operand(vx)} {cz(y)} {coq_result(st, out)}"
+            want = lambda pool: np.linalg.matrix_power(matrix(vx, pool), y)
+        else:
+            py_, vy = get(y)
+            code, fn = BIN[op]
+            st, out = outcome(fn, px, py_, timeout=60)
+            chk = f"bin_eqb {cnat(code)} {coq_operand(vx)} {coq_operand(vy)} {coq_result(st, out)}"
+            want = (lambda pool, vx=vx, vy=vy, op=op: matrix(vx, pool) + matrix(vy, pool) if op == "add" else
+                    matrix(vx, pool) - matrix(vy, pool) if op == "sub" else matrix(vx, pool) @ matrix(vy, pool))
+        chks.append(chk)
+        if st != "ok":
+            msgs.append(f"{text} raised {out}")
+            res_py.append(None); res_val.append(None)
+            break
+        val = from_py(out)
+        res_py.append(out); res_val.append(val)
+        pool = sorted(pool_q | qubits_of(val) | set().union(*[qubits_of(v) for v in res_val if v]))
+        if not close(matrix(val, pool), want(pool)):
+            msgs.append(f"{text} on the original values {to_py(vx)!r}" + (f", {to_py(get(y)[1])!r}" if op in BIN else "") +
+                        f" returned {out!r}: matrix differs from the matrix operation on the original operands")
+    # re-read: operands and earlier results must still be what they were
+    for i, (o, v) in enumerate(zip(py, vals)):
+        if v["k"] == "N":
+            continue
+        now = from_py(o)
+        chks.append(f"goperand_eqb {coq_operand(now)} {coq_operand(v)}")
+        if not same_value(now, v):
+            msgs.append(f"operand o{i} = {to_py(v)!r} reads {o!r} after the history")
+    for k, (o, v) in enumerate(zip(res_py, res_val)):
+        if o is None:
+            continue
+        now = from_py(o)
+        chks.append(f"goperand_eqb {coq_operand(now)} {coq_operand(v)}")
+        if not same_value(now, v):
+            msgs.append(f"result r{k} = {to_py(v)!r} reads {o!r} after the later steps")
+    used = [r for st_ in steps for r in st_[1:] if isinstance(r, str)]
+    reuse = any(used.count(r) >= 2 for r in set(used)) or any("refs" in o for o in objs)
+    history = "; ".join(f"{op} {x}" + (f" {y}" if y is not None else "") for op, x, y in steps)
+    return dict(chk=" && ".join(f"({c})" for c in chks), oracle_ok=not msgs,
+                oracle_msg="" if not msgs else f"history [{history}] with " +
+                           ", ".join(f"o{i} = {to_py(v)!r}" for i, v in enumerate(vals)) + ": " + " | ".join(msgs[:3]),
+                kind="history-" + inp["tpl"], nontrivial=reuse and len(steps) >= 2)
+
+def run_case(inp):
+    r = run_history(inp) if inp["kind"] == "history" else run_single(inp)
+    operands = expand(inp["objs"]) if inp["kind"] == "history" else [inp[k] for k in ("a", "b") if isinstance(inp.get(k), dict)]
+    r["kind"] = r["kind"] + "/" + tymix(*operands)
+    return r
 
 def w_f33():
     vals = [PauliSum([]) == 0, 0 == PauliSum([]), PauliSum([]) == 0.0, (PauliTerm("X0") - PauliTerm("X0")) == 0,
